@@ -1142,7 +1142,9 @@ def check_chain(ck, case, res, seed, tier):
                 fld = b[0]
                 if ell and fld.startswith("obs:value:") and fld.endswith((":value", ":sexagesimal-rounding")):
                     fld = fld.rsplit(":", 1)[0] + ":ellipsoid-reduction"
-                elif ell and fld == "approx-coordinate":
+                elif ell and fld in ("approx-coordinate", "point-status"):
+                    # (the drifting zenith angles of the known finding end up beyond tol-abs in a later round only,
+                    # the point they determine is removed there and is exported as unused)
                     fld += ":ellipsoid-reduction"
                 if fld in seen:
                     continue
